@@ -1,1 +1,2236 @@
-// stub
+//! Validator + checking interpreter for the WasmGC bytes emitted by `compile_sources`.
+//!
+//! No stock engine in the sandbox can run these modules, so this file is the execution engine
+//! for every check that observes the wasm backend. It is built on `wasmparser` 0.252's binary
+//! reader: the module is validated with `wasmparser::Validator` (all features), then parsed
+//! into our own structures, function bodies are pre-decoded once into a flat instruction
+//! vector with resolved branch targets, and run with an explicit value stack + frame stack
+//! (no host recursion).
+//!
+//! Instantiation mirrors `loader.js`: the only imports that exist are
+//! `builtins.__Process$println` and `builtins.__Process$panic` (anything else is a LinkError,
+//! as it would be under `new WebAssembly.Instance`), strings are decoded the way
+//! `String.fromCharCode(...codes)` decodes the `array.get_s` results of `__strGet`
+//! (a byte >= 0x80 becomes the UTF-16 unit 0xFF00|byte), the start function runs at
+//! instantiation, then the requested export is called with no arguments.
+//!
+//! Trap kinds implemented (each has a code path in `exec`), and their classification:
+//!   IntegerDivideByZero, IntegerOverflow     -> Ending::ArithTrap(kind)
+//!       (i32.div_s/div_u/rem_s/rem_u by zero; i32.div_s INT_MIN/-1; rem_s INT_MIN%-1 = 0, per spec)
+//!   Unreachable inside $__Vec$get/$__Vec$set/$__Vec$pop -> Ending::VecBounds
+//!   Unreachable anywhere else                -> Fault{Unreachable}
+//!   CastFailure        ref.cast (incl. null into a non-null target)
+//!   NullReference      ref.as_non_null, struct.get/set, array.get/set/len/fill/copy, i31.get_*,
+//!                      call_ref on null
+//!   OutOfBoundsArray   array.get/set/fill/copy index or range outside the array
+//!   OutOfBoundsTable   call_indirect / table.get / table.set index outside the table
+//!   NullTableEntry     call_indirect through a null table slot
+//!   IndirectCallTypeMismatch  call_indirect callee type is not a subtype of the expected type
+//!   OutOfBoundsData    array.new_data range outside the (possibly dropped) data segment
+//!   OutOfBoundsMemory  i32 load/store outside linear memory, active data segment outside memory
+//!   AllocationTooLarge array.new* with a length >= 2^27 elements (engine limit, see MAX_ARRAY_LEN)
+//!   InvalidModule      the bytes do not validate (what `new WebAssembly.Module` would reject)
+//!   LinkError          an import that loader.js does not supply
+//!   MissingExport      the requested export does not exist / is not a function
+//!   -> all of these are Ending::Fault { kind, at }
+//! Budgets: call depth -> StackExhausted; instruction / println count -> StepLimit;
+//! heap cell budget -> Harness("resource: ..."). Anything the interpreter does not implement
+//! (i64/f32/f64/simd arithmetic, exceptions, tail calls, array.new_elem ...) decodes to an
+//! `Unsupported` instruction that ends the run with Harness("unsupported: ...") only if executed.
+//!
+//! Subtyping: rec groups are canonicalised iso-recursively (structural key per group with
+//! group-relative internal references), `is_sub` walks the declared supertype chain comparing
+//! canonical ids; ref.test / ref.cast / br_on_cast* / call_indirect / call_ref all use it.
+
+use crate::trace::{Ending, Limits, Trace, UbFlags};
+use std::collections::{BTreeSet, HashMap};
+use wasmparser::{
+  AbstractHeapType, BlockType, CompositeInnerType, ConstExpr, DataKind, ElementItems, ElementKind,
+  ExternalKind, FunctionBody, HeapType, KnownCustom, ModuleArity, Name, Operator, Parser, Payload,
+  RefType, StorageType, SubType, TableInit, TypeRef, ValType, Validator, WasmFeatures,
+};
+
+/// arrays longer than this are refused the way an engine refuses over-large arrays
+pub const MAX_ARRAY_LEN: u32 = 1 << 27;
+/// total number of heap cells (fields / elements, bytes counted /8) one run may allocate
+pub const HEAP_CELL_BUDGET: u64 = 1 << 27;
+
+pub fn validate(bytes: &[u8]) -> Result<(), String> {
+  let mut v = Validator::new_with_features(WasmFeatures::all());
+  match v.validate_all(bytes) {
+    Ok(_) => Ok(()),
+    Err(e) => Err(format!("{} (at offset {})", e.message(), e.offset())),
+  }
+}
+
+#[derive(Clone, Debug, Default)]
+pub struct WasmRunStats {
+  pub instrs: u64,
+  pub max_depth: usize,
+  pub opcodes_seen: BTreeSet<String>,
+  pub gc_allocs: u64,
+}
+
+// ---------------------------------------------------------------------------------------------
+// values, types
+// ---------------------------------------------------------------------------------------------
+
+#[derive(Clone, Copy, Debug, PartialEq)]
+enum Val {
+  I32(i32),
+  I64(i64),
+  F32(u32),
+  F64(u64),
+  Null,
+  /// already sign-extended from 31 bits
+  I31(i32),
+  Obj(u32),
+  Func(u32),
+}
+
+/// heap type as used by ref.test / ref.cast
+#[derive(Clone, Copy, Debug, PartialEq, Eq)]
+enum HT {
+  Any,
+  Eq,
+  I31,
+  Struct,
+  Array,
+  None,
+  Func,
+  NoFunc,
+  Extern,
+  NoExtern,
+  Other,
+  Concrete(u32),
+}
+
+const HT_CODES: [HT; 11] = [
+  HT::Any,
+  HT::Eq,
+  HT::I31,
+  HT::Struct,
+  HT::Array,
+  HT::None,
+  HT::Func,
+  HT::NoFunc,
+  HT::Extern,
+  HT::NoExtern,
+  HT::Other,
+];
+
+fn ht_encode(h: HT) -> (u32, u32) {
+  match h {
+    HT::Concrete(i) => (11, i),
+    other => (HT_CODES.iter().position(|x| *x == other).unwrap() as u32, 0),
+  }
+}
+#[inline(always)]
+fn ht_decode(code: u32, idx: u32) -> HT {
+  if code == 11 { HT::Concrete(idx) } else { HT_CODES[code as usize] }
+}
+
+fn conv_heap_type(h: HeapType) -> HT {
+  match h {
+    HeapType::Abstract { shared: _, ty } => match ty {
+      AbstractHeapType::Any => HT::Any,
+      AbstractHeapType::Eq => HT::Eq,
+      AbstractHeapType::I31 => HT::I31,
+      AbstractHeapType::Struct => HT::Struct,
+      AbstractHeapType::Array => HT::Array,
+      AbstractHeapType::None => HT::None,
+      AbstractHeapType::Func => HT::Func,
+      AbstractHeapType::NoFunc => HT::NoFunc,
+      AbstractHeapType::Extern => HT::Extern,
+      AbstractHeapType::NoExtern => HT::NoExtern,
+      _ => HT::Other,
+    },
+    HeapType::Concrete(i) => match i.as_module_index() {
+      Some(i) => HT::Concrete(i),
+      None => HT::Other,
+    },
+    HeapType::Exact(_) => HT::Other,
+  }
+}
+
+#[derive(Clone, Copy, Debug, PartialEq, Eq)]
+enum Stor {
+  Full,
+  I8,
+  I16,
+}
+
+#[derive(Clone, Debug)]
+enum Kind {
+  Func { nparams: u32, nresults: u32 },
+  Struct { fields: Vec<(Stor, Val)> },
+  Array { stor: Stor, default: Val, numeric_bytes: u32 },
+  Other,
+}
+
+#[derive(Clone, Debug)]
+struct TypeDef {
+  kind: Kind,
+  supertype: Option<u32>,
+  canon: u32,
+}
+
+fn default_of(v: ValType) -> Val {
+  match v {
+    ValType::I32 => Val::I32(0),
+    ValType::I64 => Val::I64(0),
+    ValType::F32 => Val::F32(0),
+    ValType::F64 => Val::F64(0),
+    ValType::V128 => Val::I64(0),
+    ValType::Ref(_) => Val::Null,
+  }
+}
+
+fn stor_of(s: StorageType) -> (Stor, Val, u32) {
+  match s {
+    StorageType::I8 => (Stor::I8, Val::I32(0), 1),
+    StorageType::I16 => (Stor::I16, Val::I32(0), 2),
+    StorageType::Val(v) => (
+      Stor::Full,
+      default_of(v),
+      match v {
+        ValType::I32 | ValType::F32 => 4,
+        ValType::I64 | ValType::F64 => 8,
+        _ => 0,
+      },
+    ),
+  }
+}
+
+// ---------------------------------------------------------------------------------------------
+// instructions
+// ---------------------------------------------------------------------------------------------
+
+macro_rules! define_ops {
+  ($($v:ident = $n:literal),* $(,)?) => {
+    #[repr(u8)]
+    #[derive(Clone, Copy, PartialEq, Eq, Debug)]
+    #[allow(dead_code)]
+    enum Op { $($v),* }
+    const OP_NAMES: &[&str] = &[$($n),*];
+  };
+}
+
+define_ops! {
+  Unreachable = "unreachable", Nop = "nop", Block = "block", Loop = "loop", If = "if",
+  Else = "else", End = "end", Br = "br", BrIf = "br_if", BrTable = "br_table",
+  Return = "return", Call = "call", CallIndirect = "call_indirect", CallRef = "call_ref",
+  Drop = "drop", Select = "select",
+  LocalGet = "local.get", LocalSet = "local.set", LocalTee = "local.tee",
+  GlobalGet = "global.get", GlobalSet = "global.set",
+  I32Const = "i32.const",
+  I32Eqz = "i32.eqz", I32Eq = "i32.eq", I32Ne = "i32.ne", I32LtS = "i32.lt_s", I32LtU = "i32.lt_u",
+  I32GtS = "i32.gt_s", I32GtU = "i32.gt_u", I32LeS = "i32.le_s", I32LeU = "i32.le_u",
+  I32GeS = "i32.ge_s", I32GeU = "i32.ge_u",
+  I32Clz = "i32.clz", I32Ctz = "i32.ctz", I32Popcnt = "i32.popcnt",
+  I32Add = "i32.add", I32Sub = "i32.sub", I32Mul = "i32.mul", I32DivS = "i32.div_s",
+  I32DivU = "i32.div_u", I32RemS = "i32.rem_s", I32RemU = "i32.rem_u", I32And = "i32.and",
+  I32Or = "i32.or", I32Xor = "i32.xor", I32Shl = "i32.shl", I32ShrS = "i32.shr_s",
+  I32ShrU = "i32.shr_u", I32Rotl = "i32.rotl", I32Rotr = "i32.rotr",
+  I32Extend8S = "i32.extend8_s", I32Extend16S = "i32.extend16_s",
+  I32Load = "i32.load", I32Load8S = "i32.load8_s", I32Load8U = "i32.load8_u",
+  I32Load16S = "i32.load16_s", I32Load16U = "i32.load16_u",
+  I32Store = "i32.store", I32Store8 = "i32.store8", I32Store16 = "i32.store16",
+  MemorySize = "memory.size", MemoryGrow = "memory.grow", DataDrop = "data.drop",
+  RefNull = "ref.null", RefIsNull = "ref.is_null", RefFunc = "ref.func", RefEq = "ref.eq",
+  RefAsNonNull = "ref.as_non_null", BrOnNull = "br_on_null", BrOnNonNull = "br_on_non_null",
+  BrOnCast = "br_on_cast", BrOnCastFail = "br_on_cast_fail",
+  RefTest = "ref.test", RefCast = "ref.cast",
+  RefI31 = "ref.i31", I31GetS = "i31.get_s", I31GetU = "i31.get_u",
+  StructNew = "struct.new", StructNewDefault = "struct.new_default", StructGet = "struct.get",
+  StructGetS = "struct.get_s", StructGetU = "struct.get_u", StructSet = "struct.set",
+  ArrayNew = "array.new", ArrayNewDefault = "array.new_default", ArrayNewFixed = "array.new_fixed",
+  ArrayNewData = "array.new_data", ArrayGet = "array.get", ArrayGetS = "array.get_s",
+  ArrayGetU = "array.get_u", ArraySet = "array.set", ArrayLen = "array.len",
+  ArrayFill = "array.fill", ArrayCopy = "array.copy",
+  TableGet = "table.get", TableSet = "table.set", TableSize = "table.size",
+  Unsupported = "<unsupported>",
+}
+
+/// one pre-decoded instruction; meaning of a/b/c depends on `op`
+#[derive(Clone, Copy, Debug)]
+struct Ins {
+  op: Op,
+  a: u32,
+  b: u32,
+  c: u32,
+}
+
+#[inline(always)]
+fn ins(op: Op, a: u32, b: u32, c: u32) -> Ins {
+  Ins { op, a, b, c }
+}
+
+/// branch descriptor: jump to `target`, keeping the top `arity` values on top of operand
+/// height `height` (relative to the frame's operand base)
+#[derive(Clone, Copy, Debug, Default)]
+struct BrT {
+  target: u32,
+  height: u32,
+  arity: u32,
+}
+
+#[derive(Clone, Copy, Debug)]
+struct CastBr {
+  br: BrT,
+  ht: HT,
+  nullable: bool,
+}
+
+enum Host {
+  Println,
+  Panic,
+}
+
+struct Func {
+  ty: u32,
+  nparams: u32,
+  nresults: u32,
+  /// defaults of the non-parameter locals
+  local_defaults: Vec<Val>,
+  code: Vec<Ins>,
+  name: Option<String>,
+  host: Option<Host>,
+  /// "module.name" for imports
+  import: Option<String>,
+}
+
+struct DataSeg {
+  bytes: Vec<u8>,
+  /// Some((memory, offset expr value)) for active segments
+  active: Option<(u32, u32)>,
+}
+
+struct TableDef {
+  initial: u64,
+  init: Val,
+}
+
+struct ElemSeg {
+  /// Some((table, offset)) for active segments
+  active: Option<(u32, u32)>,
+  items: Vec<Val>,
+}
+
+struct Module {
+  types: Vec<TypeDef>,
+  funcs: Vec<Func>,
+  n_imported_funcs: u32,
+  tables: Vec<TableDef>,
+  /// initial pages of memory 0, if any
+  memory: Option<(u64, Option<u64>)>,
+  global_inits: Vec<GlobalInit>,
+  exports: HashMap<String, (ExternalKind, u32)>,
+  elems: Vec<ElemSeg>,
+  datas: Vec<DataSeg>,
+  start: Option<u32>,
+  br_tables: Vec<Vec<BrT>>,
+  cast_brs: Vec<CastBr>,
+  unsupported: Vec<String>,
+  /// function indices of $__Vec$pop / $__Vec$get / $__Vec$set
+  vec_helpers: Option<[u32; 3]>,
+  link_error: Option<String>,
+}
+
+enum GlobalInit {
+  Const(Val),
+  /// evaluated at instantiation (may refer to other globals)
+  Expr(Vec<CInstr>),
+}
+
+#[derive(Clone, Debug)]
+enum CInstr {
+  I32(i32),
+  Null,
+  Func(u32),
+  Global(u32),
+  I31,
+  Add,
+  Sub,
+  Mul,
+}
+
+impl Module {
+  fn fname(&self, f: u32) -> String {
+    match self.funcs.get(f as usize).and_then(|x| x.name.clone()) {
+      Some(n) => n,
+      None => format!("func[{f}]"),
+    }
+  }
+
+  /// declared-subtype check on canonicalised type ids
+  #[inline]
+  fn is_sub(&self, a: u32, b: u32) -> bool {
+    let cb = self.types[b as usize].canon;
+    let mut cur = Some(a);
+    while let Some(t) = cur {
+      let td = &self.types[t as usize];
+      if td.canon == cb {
+        return true;
+      }
+      cur = td.supertype;
+    }
+    false
+  }
+}
+
+// ---------------------------------------------------------------------------------------------
+// parsing
+// ---------------------------------------------------------------------------------------------
+
+/// key fragment for a value type inside the rec group starting at `start` with `len` members
+fn key_valtype(out: &mut String, v: ValType, start: u32, len: u32, canon: &[u32]) {
+  match v {
+    ValType::I32 => out.push_str("i32"),
+    ValType::I64 => out.push_str("i64"),
+    ValType::F32 => out.push_str("f32"),
+    ValType::F64 => out.push_str("f64"),
+    ValType::V128 => out.push_str("v128"),
+    ValType::Ref(r) => key_reftype(out, r, start, len, canon),
+  }
+}
+
+fn key_index(out: &mut String, i: Option<u32>, start: u32, len: u32, canon: &[u32]) {
+  match i {
+    Some(i) if i >= start && i < start + len => out.push_str(&format!("r{}", i - start)),
+    Some(i) if (i as usize) < canon.len() => out.push_str(&format!("c{}", canon[i as usize])),
+    Some(i) => out.push_str(&format!("?{i}")),
+    None => out.push_str("?"),
+  }
+}
+
+fn key_reftype(out: &mut String, r: RefType, start: u32, len: u32, canon: &[u32]) {
+  out.push_str(if r.is_nullable() { "(ref null " } else { "(ref " });
+  match r.heap_type() {
+    HeapType::Abstract { shared, ty } => out.push_str(&format!("{ty:?}{}", if shared { "!" } else { "" })),
+    HeapType::Concrete(i) => key_index(out, i.as_module_index(), start, len, canon),
+    HeapType::Exact(i) => {
+      out.push_str("exact ");
+      key_index(out, i.as_module_index(), start, len, canon)
+    }
+  }
+  out.push(')');
+}
+
+fn key_storage(out: &mut String, s: StorageType, start: u32, len: u32, canon: &[u32]) {
+  match s {
+    StorageType::I8 => out.push_str("i8"),
+    StorageType::I16 => out.push_str("i16"),
+    StorageType::Val(v) => key_valtype(out, v, start, len, canon),
+  }
+}
+
+fn key_subtype(out: &mut String, st: &SubType, start: u32, len: u32, canon: &[u32]) {
+  out.push_str(if st.is_final { "[final " } else { "[sub " });
+  if let Some(s) = st.supertype_idx {
+    key_index(out, s.as_module_index(), start, len, canon);
+  }
+  out.push(' ');
+  if st.composite_type.shared {
+    out.push_str("shared ");
+  }
+  match &st.composite_type.inner {
+    CompositeInnerType::Func(f) => {
+      out.push_str("func(");
+      for p in f.params() {
+        key_valtype(out, *p, start, len, canon);
+        out.push(',');
+      }
+      out.push_str(")->(");
+      for p in f.results() {
+        key_valtype(out, *p, start, len, canon);
+        out.push(',');
+      }
+      out.push(')');
+    }
+    CompositeInnerType::Struct(s) => {
+      out.push_str("struct(");
+      for f in s.fields.iter() {
+        if f.mutable {
+          out.push_str("mut ");
+        }
+        key_storage(out, f.element_type, start, len, canon);
+        out.push(',');
+      }
+      out.push(')');
+    }
+    CompositeInnerType::Array(a) => {
+      out.push_str("array(");
+      if a.0.mutable {
+        out.push_str("mut ");
+      }
+      key_storage(out, a.0.element_type, start, len, canon);
+      out.push(')');
+    }
+    CompositeInnerType::Cont(c) => {
+      out.push_str("cont ");
+      key_index(out, c.0.as_module_index(), start, len, canon);
+    }
+  }
+  out.push(']');
+}
+
+struct Parsed<'a> {
+  subtypes: Vec<SubType>,
+  func_tys: Vec<u32>,
+  bodies: Vec<FunctionBody<'a>>,
+  module: Module,
+}
+
+fn const_expr(e: &ConstExpr) -> Result<Vec<CInstr>, String> {
+  let mut out = Vec::new();
+  let mut r = e.get_operators_reader();
+  while !r.eof() {
+    match r.read().map_err(|e| e.to_string())? {
+      Operator::I32Const { value } => out.push(CInstr::I32(value)),
+      Operator::RefNull { .. } => out.push(CInstr::Null),
+      Operator::RefFunc { function_index } => out.push(CInstr::Func(function_index)),
+      Operator::GlobalGet { global_index } => out.push(CInstr::Global(global_index)),
+      Operator::RefI31 => out.push(CInstr::I31),
+      Operator::I32Add => out.push(CInstr::Add),
+      Operator::I32Sub => out.push(CInstr::Sub),
+      Operator::I32Mul => out.push(CInstr::Mul),
+      Operator::End => {}
+      other => return Err(format!("unsupported: constant expression operator {other:?}")),
+    }
+  }
+  Ok(out)
+}
+
+fn eval_const(code: &[CInstr], globals: &[Val]) -> Result<Val, String> {
+  let mut st: Vec<Val> = Vec::new();
+  for c in code {
+    match c {
+      CInstr::I32(v) => st.push(Val::I32(*v)),
+      CInstr::Null => st.push(Val::Null),
+      CInstr::Func(f) => st.push(Val::Func(*f)),
+      CInstr::Global(g) => {
+        st.push(*globals.get(*g as usize).ok_or("internal: const global.get out of range")?)
+      }
+      CInstr::I31 => match st.pop() {
+        Some(Val::I32(v)) => st.push(Val::I31((v << 1) >> 1)),
+        _ => return Err("internal: const ref.i31 operand".into()),
+      },
+      CInstr::Add | CInstr::Sub | CInstr::Mul => match (st.pop(), st.pop()) {
+        (Some(Val::I32(b)), Some(Val::I32(a))) => st.push(Val::I32(match c {
+          CInstr::Add => a.wrapping_add(b),
+          CInstr::Sub => a.wrapping_sub(b),
+          _ => a.wrapping_mul(b),
+        })),
+        _ => return Err("internal: const arithmetic operands".into()),
+      },
+    }
+  }
+  if st.len() == 1 { Ok(st[0]) } else { Err("internal: const expression result count".into()) }
+}
+
+fn const_u32(e: &ConstExpr) -> Result<u32, String> {
+  match eval_const(&const_expr(e)?, &[])? {
+    Val::I32(v) => Ok(v as u32),
+    _ => Err("unsupported: non-i32 segment offset".into()),
+  }
+}
+
+fn parse_module(bytes: &[u8]) -> Result<Parsed<'_>, String> {
+  let mut subtypes: Vec<SubType> = Vec::new();
+  let mut types: Vec<TypeDef> = Vec::new();
+  let mut canon: Vec<u32> = Vec::new();
+  let mut group_keys: HashMap<String, u32> = HashMap::new();
+  let mut func_tys: Vec<u32> = Vec::new();
+  let mut funcs: Vec<Func> = Vec::new();
+  let mut bodies: Vec<FunctionBody> = Vec::new();
+  let mut m = Module {
+    types: vec![],
+    funcs: vec![],
+    n_imported_funcs: 0,
+    tables: vec![],
+    memory: None,
+    global_inits: vec![],
+    exports: HashMap::new(),
+    elems: vec![],
+    datas: vec![],
+    start: None,
+    br_tables: vec![],
+    cast_brs: vec![],
+    unsupported: vec![],
+    vec_helpers: None,
+    link_error: None,
+  };
+  let mut names: HashMap<u32, String> = HashMap::new();
+  let es = |e: wasmparser::BinaryReaderError| e.to_string();
+
+  for payload in Parser::new(0).parse_all(bytes) {
+    match payload.map_err(es)? {
+      Payload::Version { .. } => {}
+      Payload::TypeSection(r) => {
+        for rg in r {
+          let rg = rg.map_err(es)?;
+          let start = subtypes.len() as u32;
+          let members: Vec<SubType> = rg.types().cloned().collect();
+          let len = members.len() as u32;
+          let mut key = String::new();
+          for st in &members {
+            key_subtype(&mut key, st, start, len, &canon);
+          }
+          let cstart = *group_keys.entry(key).or_insert(start);
+          for (i, st) in members.into_iter().enumerate() {
+            canon.push(cstart + i as u32);
+            let kind = match &st.composite_type.inner {
+              CompositeInnerType::Func(f) => {
+                Kind::Func { nparams: f.params().len() as u32, nresults: f.results().len() as u32 }
+              }
+              CompositeInnerType::Struct(s) => Kind::Struct {
+                fields: s
+                  .fields
+                  .iter()
+                  .map(|f| {
+                    let (st, d, _) = stor_of(f.element_type);
+                    (st, d)
+                  })
+                  .collect(),
+              },
+              CompositeInnerType::Array(a) => {
+                let (stor, default, nb) = stor_of(a.0.element_type);
+                Kind::Array { stor, default, numeric_bytes: nb }
+              }
+              CompositeInnerType::Cont(_) => Kind::Other,
+            };
+            types.push(TypeDef {
+              kind,
+              supertype: st.supertype_idx.and_then(|p| p.as_module_index()),
+              canon: cstart + i as u32,
+            });
+            subtypes.push(st);
+          }
+        }
+      }
+      Payload::ImportSection(r) => {
+        for imp in r.into_imports() {
+          let imp = imp.map_err(es)?;
+          let full = format!("{}.{}", imp.module, imp.name);
+          match imp.ty {
+            TypeRef::Func(t) | TypeRef::FuncExact(t) => {
+              let (np, nr) = match types.get(t as usize).map(|x| &x.kind) {
+                Some(Kind::Func { nparams, nresults }) => (*nparams, *nresults),
+                _ => return Err("internal: import type is not a function type".into()),
+              };
+              let host = match (imp.module, imp.name) {
+                ("builtins", "__Process$println") => Some(Host::Println),
+                ("builtins", "__Process$panic") => Some(Host::Panic),
+                _ => None,
+              };
+              if host.is_none() && m.link_error.is_none() {
+                m.link_error = Some(full.clone());
+              }
+              func_tys.push(t);
+              funcs.push(Func {
+                ty: t,
+                nparams: np,
+                nresults: nr,
+                local_defaults: vec![],
+                code: vec![],
+                name: None,
+                host,
+                import: Some(full),
+              });
+            }
+            _ => {
+              // loader.js supplies only the two functions
+              if m.link_error.is_none() {
+                m.link_error = Some(full);
+              }
+            }
+          }
+        }
+        m.n_imported_funcs = funcs.len() as u32;
+      }
+      Payload::FunctionSection(r) => {
+        for t in r {
+          let t = t.map_err(es)?;
+          let (np, nr) = match types.get(t as usize).map(|x| &x.kind) {
+            Some(Kind::Func { nparams, nresults }) => (*nparams, *nresults),
+            _ => return Err("internal: function type index is not a function type".into()),
+          };
+          func_tys.push(t);
+          funcs.push(Func {
+            ty: t,
+            nparams: np,
+            nresults: nr,
+            local_defaults: vec![],
+            code: vec![],
+            name: None,
+            host: None,
+            import: None,
+          });
+        }
+      }
+      Payload::TableSection(r) => {
+        for t in r {
+          let t = t.map_err(es)?;
+          let init = match &t.init {
+            TableInit::RefNull => Val::Null,
+            TableInit::Expr(e) => eval_const(&const_expr(e)?, &[])?,
+          };
+          if t.ty.table64 {
+            return Err("unsupported: 64-bit table".into());
+          }
+          m.tables.push(TableDef { initial: t.ty.initial, init });
+        }
+      }
+      Payload::MemorySection(r) => {
+        for (i, mt) in r.into_iter().enumerate() {
+          let mt = mt.map_err(es)?;
+          if i > 0 || mt.memory64 || mt.page_size_log2.is_some() {
+            return Err("unsupported: multi-memory / memory64 / custom page size".into());
+          }
+          m.memory = Some((mt.initial, mt.maximum));
+        }
+      }
+      Payload::TagSection(_) => return Err("unsupported: tag section".into()),
+      Payload::GlobalSection(r) => {
+        for g in r {
+          let g = g.map_err(es)?;
+          let code = const_expr(&g.init_expr)?;
+          let needs_env = code.iter().any(|c| matches!(c, CInstr::Global(_)));
+          m.global_inits.push(if needs_env {
+            GlobalInit::Expr(code)
+          } else {
+            GlobalInit::Const(eval_const(&code, &[])?)
+          });
+        }
+      }
+      Payload::ExportSection(r) => {
+        for e in r {
+          let e = e.map_err(es)?;
+          m.exports.insert(e.name.to_string(), (e.kind, e.index));
+        }
+      }
+      Payload::StartSection { func, .. } => m.start = Some(func),
+      Payload::ElementSection(r) => {
+        for e in r {
+          let e = e.map_err(es)?;
+          let items: Vec<Val> = match &e.items {
+            ElementItems::Functions(fs) => {
+              let mut v = Vec::new();
+              for f in fs.clone() {
+                v.push(Val::Func(f.map_err(es)?));
+              }
+              v
+            }
+            ElementItems::Expressions(_, xs) => {
+              let mut v = Vec::new();
+              for x in xs.clone() {
+                v.push(eval_const(&const_expr(&x.map_err(es)?)?, &[])?);
+              }
+              v
+            }
+          };
+          let active = match &e.kind {
+            ElementKind::Active { table_index, offset_expr } => {
+              Some((table_index.unwrap_or(0), const_u32(offset_expr)?))
+            }
+            ElementKind::Passive | ElementKind::Declared => None,
+          };
+          m.elems.push(ElemSeg { active, items });
+        }
+      }
+      Payload::DataCountSection { .. } => {}
+      Payload::DataSection(r) => {
+        for d in r {
+          let d = d.map_err(es)?;
+          let active = match &d.kind {
+            DataKind::Passive => None,
+            DataKind::Active { memory_index, offset_expr } => {
+              Some((*memory_index, const_u32(offset_expr)?))
+            }
+          };
+          m.datas.push(DataSeg { bytes: d.data.to_vec(), active });
+        }
+      }
+      Payload::CodeSectionStart { .. } => {}
+      Payload::CodeSectionEntry(b) => bodies.push(b),
+      Payload::CustomSection(c) => {
+        if let KnownCustom::Name(nr) = c.as_known() {
+          for n in nr {
+            // a malformed name section is not an error for an engine; ignore what cannot be read
+            if let Ok(Name::Function(map)) = n {
+              for naming in map {
+                if let Ok(naming) = naming {
+                  names.insert(naming.index, naming.name.to_string());
+                }
+              }
+            }
+          }
+        }
+      }
+      Payload::End(_) => {}
+      other => return Err(format!("unsupported: module section {other:?}")),
+    }
+  }
+  for (i, f) in funcs.iter_mut().enumerate() {
+    f.name = names.get(&(i as u32)).cloned();
+  }
+  m.types = types;
+  m.funcs = funcs;
+  Ok(Parsed { subtypes, func_tys, bodies, module: m })
+}
+
+// ---------------------------------------------------------------------------------------------
+// pre-decoding of function bodies
+// ---------------------------------------------------------------------------------------------
+
+struct ArityCtx<'a> {
+  subtypes: &'a [SubType],
+  func_tys: &'a [u32],
+}
+
+impl ModuleArity for ArityCtx<'_> {
+  fn sub_type_at(&self, type_idx: u32) -> Option<&SubType> {
+    self.subtypes.get(type_idx as usize)
+  }
+  fn tag_type_arity(&self, _at: u32) -> Option<(u32, u32)> {
+    None
+  }
+  fn type_index_of_function(&self, function_idx: u32) -> Option<u32> {
+    self.func_tys.get(function_idx as usize).copied()
+  }
+  fn func_type_of_cont_type(&self, _c: &wasmparser::ContType) -> Option<&wasmparser::FuncType> {
+    None
+  }
+  fn sub_type_of_ref_type(&self, rt: &RefType) -> Option<&SubType> {
+    self.subtypes.get(rt.type_index()?.as_module_index()? as usize)
+  }
+  fn control_stack_height(&self) -> u32 {
+    0
+  }
+  fn label_block(&self, _depth: u32) -> Option<(BlockType, wasmparser::FrameKind)> {
+    None
+  }
+}
+
+#[derive(Clone, Copy, PartialEq, Eq)]
+enum CtlKind {
+  Func,
+  Block,
+  Loop,
+  If,
+}
+
+enum Fix {
+  /// patch `code[i].a`
+  Ins(usize),
+  /// patch `br_tables[t][e].target`
+  Table(usize, usize),
+  /// patch `cast_brs[i].br.target`
+  Cast(usize),
+}
+
+struct Ctl {
+  kind: CtlKind,
+  base_h: u32,
+  nparams: u32,
+  nresults: u32,
+  unreachable: bool,
+  fixups: Vec<Fix>,
+  if_ins: Option<usize>,
+  loop_start: u32,
+}
+
+struct Decoder<'a> {
+  actx: ArityCtx<'a>,
+  m: &'a mut Module,
+  code: Vec<Ins>,
+  ctls: Vec<Ctl>,
+  h: u32,
+}
+
+impl Decoder<'_> {
+  fn block_arity(&self, bt: BlockType) -> Result<(u32, u32), String> {
+    self.actx.block_type_arity(bt).ok_or_else(|| "internal: bad block type".to_string())
+  }
+
+  /// branch descriptor for label `depth`; registers a fixup produced by `mk` for forward labels
+  fn label(&mut self, depth: u32, mk: impl FnOnce() -> Fix) -> Result<BrT, String> {
+    let n = self.ctls.len();
+    if depth as usize >= n {
+      return Err("internal: branch depth out of range".into());
+    }
+    let c = &mut self.ctls[n - 1 - depth as usize];
+    if c.kind == CtlKind::Loop {
+      Ok(BrT { target: c.loop_start, height: c.base_h, arity: c.nparams })
+    } else {
+      c.fixups.push(mk());
+      Ok(BrT { target: u32::MAX, height: c.base_h, arity: c.nresults })
+    }
+  }
+
+  fn emit(&mut self, i: Ins) -> usize {
+    self.code.push(i);
+    self.code.len() - 1
+  }
+
+  fn unsupported(&mut self, what: String) {
+    let idx = self.m.unsupported.len() as u32;
+    self.m.unsupported.push(what);
+    self.emit(ins(Op::Unsupported, idx, 0, 0));
+  }
+
+  fn patch(&mut self, fixups: Vec<Fix>, target: u32) {
+    for f in fixups {
+      match f {
+        Fix::Ins(i) => self.code[i].a = target,
+        Fix::Table(t, e) => self.m.br_tables[t][e].target = target,
+        Fix::Cast(i) => self.m.cast_brs[i].br.target = target,
+      }
+    }
+  }
+
+  fn pop_n(&mut self, n: u32) -> Result<(), String> {
+    if self.h < n {
+      return Err(format!("internal: static operand height underflow ({} < {n})", self.h));
+    }
+    self.h -= n;
+    Ok(())
+  }
+
+  fn stor_code(&self, ty: u32, field: Option<u32>) -> u32 {
+    let s = match (&self.m.types.get(ty as usize).map(|t| &t.kind), field) {
+      (Some(Kind::Struct { fields }), Some(f)) => fields.get(f as usize).map(|x| x.0),
+      (Some(Kind::Array { stor, .. }), None) => Some(*stor),
+      _ => None,
+    };
+    match s {
+      Some(Stor::I8) => 1,
+      Some(Stor::I16) => 2,
+      _ => 0,
+    }
+  }
+}
+
+fn decode_function(
+  m: &mut Module,
+  subtypes: &[SubType],
+  func_tys: &[u32],
+  fidx: usize,
+  body: &FunctionBody,
+) -> Result<(), String> {
+  let es = |e: wasmparser::BinaryReaderError| e.to_string();
+  let (nparams, nresults) = (m.funcs[fidx].nparams, m.funcs[fidx].nresults);
+  let mut local_defaults = Vec::new();
+  let mut lr = body.get_locals_reader().map_err(es)?;
+  for _ in 0..lr.get_count() {
+    let (n, ty) = lr.read().map_err(es)?;
+    if local_defaults.len() as u64 + n as u64 > 50_000 {
+      return Err("unsupported: more than 50000 locals".into());
+    }
+    for _ in 0..n {
+      local_defaults.push(default_of(ty));
+    }
+  }
+  let mut d = Decoder {
+    actx: ArityCtx { subtypes, func_tys },
+    m,
+    code: Vec::new(),
+    ctls: vec![Ctl {
+      kind: CtlKind::Func,
+      base_h: 0,
+      nparams: 0,
+      nresults,
+      unreachable: false,
+      fixups: vec![],
+      if_ins: None,
+      loop_start: 0,
+    }],
+    h: 0,
+  };
+  let mut dead_depth = 0u32;
+  let mut r = body.get_operators_reader().map_err(es)?;
+  while !r.eof() {
+    let op = r.read().map_err(es)?;
+    if d.ctls.is_empty() {
+      return Err("internal: operators after the function's final end".into());
+    }
+    // ---- dead code: only track nesting -------------------------------------------------------
+    if d.ctls.last().unwrap().unreachable {
+      match &op {
+        Operator::Block { .. }
+        | Operator::Loop { .. }
+        | Operator::If { .. }
+        | Operator::TryTable { .. }
+        | Operator::Try { .. } => {
+          dead_depth += 1;
+          continue;
+        }
+        Operator::End if dead_depth > 0 => {
+          dead_depth -= 1;
+          continue;
+        }
+        Operator::Else if dead_depth > 0 => continue,
+        Operator::Else | Operator::End => {}
+        _ => continue,
+      }
+    }
+    match op {
+      // ---- control ----------------------------------------------------------------------------
+      Operator::Unreachable => {
+        d.emit(ins(Op::Unreachable, 0, 0, 0));
+        d.ctls.last_mut().unwrap().unreachable = true;
+      }
+      Operator::Nop => {
+        d.emit(ins(Op::Nop, 0, 0, 0));
+      }
+      Operator::Block { blockty } | Operator::Loop { blockty } => {
+        let is_loop = matches!(op, Operator::Loop { .. });
+        let (np, nr) = d.block_arity(blockty)?;
+        if d.h < np {
+          return Err("internal: block params exceed operand height".into());
+        }
+        d.emit(ins(if is_loop { Op::Loop } else { Op::Block }, 0, 0, 0));
+        let loop_start = d.code.len() as u32;
+        d.ctls.push(Ctl {
+          kind: if is_loop { CtlKind::Loop } else { CtlKind::Block },
+          base_h: d.h - np,
+          nparams: np,
+          nresults: nr,
+          unreachable: false,
+          fixups: vec![],
+          if_ins: None,
+          loop_start,
+        });
+      }
+      Operator::If { blockty } => {
+        let (np, nr) = d.block_arity(blockty)?;
+        d.pop_n(1)?;
+        if d.h < np {
+          return Err("internal: if params exceed operand height".into());
+        }
+        let i = d.emit(ins(Op::If, u32::MAX, 0, 0));
+        d.ctls.push(Ctl {
+          kind: CtlKind::If,
+          base_h: d.h - np,
+          nparams: np,
+          nresults: nr,
+          unreachable: false,
+          fixups: vec![],
+          if_ins: Some(i),
+          loop_start: 0,
+        });
+      }
+      Operator::Else => {
+        let j = d.emit(ins(Op::Else, u32::MAX, 0, 0));
+        let after = d.code.len() as u32;
+        let c = d.ctls.last_mut().unwrap();
+        if c.kind != CtlKind::If {
+          return Err("internal: else without if".into());
+        }
+        c.fixups.push(Fix::Ins(j));
+        let if_ins = c.if_ins.take().ok_or("internal: second else")?;
+        c.unreachable = false;
+        d.h = c.base_h + c.nparams;
+        d.code[if_ins].a = after;
+      }
+      Operator::End => {
+        let c = d.ctls.pop().unwrap();
+        if d.ctls.is_empty() {
+          // function-level end == return; branches to the function label land on it
+          let at = d.emit(ins(Op::Return, 0, 0, 0)) as u32;
+          d.patch(c.fixups, at);
+        } else {
+          d.emit(ins(Op::End, 0, 0, 0));
+          let after = d.code.len() as u32;
+          if let Some(i) = c.if_ins {
+            d.code[i].a = after;
+          }
+          d.patch(c.fixups, after);
+        }
+        d.h = c.base_h + c.nresults;
+      }
+      Operator::Br { relative_depth } => {
+        let at = d.code.len();
+        let b = d.label(relative_depth, || Fix::Ins(at))?;
+        d.emit(ins(Op::Br, b.target, b.height, b.arity));
+        d.ctls.last_mut().unwrap().unreachable = true;
+      }
+      Operator::BrIf { relative_depth } => {
+        d.pop_n(1)?;
+        let at = d.code.len();
+        let b = d.label(relative_depth, || Fix::Ins(at))?;
+        d.emit(ins(Op::BrIf, b.target, b.height, b.arity));
+      }
+      Operator::BrTable { targets } => {
+        d.pop_n(1)?;
+        let t = d.m.br_tables.len();
+        d.m.br_tables.push(Vec::new());
+        let mut all: Vec<u32> = Vec::new();
+        for x in targets.targets() {
+          all.push(x.map_err(es)?);
+        }
+        all.push(targets.default());
+        for (e, depth) in all.into_iter().enumerate() {
+          let b = d.label(depth, || Fix::Table(t, e))?;
+          d.m.br_tables[t].push(b);
+        }
+        d.emit(ins(Op::BrTable, t as u32, 0, 0));
+        d.ctls.last_mut().unwrap().unreachable = true;
+      }
+      Operator::Return => {
+        d.emit(ins(Op::Return, 0, 0, 0));
+        d.ctls.last_mut().unwrap().unreachable = true;
+      }
+      Operator::BrOnNull { relative_depth } => {
+        // [t* ref] -> branch with t* when null, else continue with [t* ref]
+        d.pop_n(1)?;
+        let at = d.code.len();
+        let b = d.label(relative_depth, || Fix::Ins(at))?;
+        d.emit(ins(Op::BrOnNull, b.target, b.height, b.arity));
+        d.h += 1;
+      }
+      Operator::BrOnNonNull { relative_depth } => {
+        // [t* ref] -> branch with [t* ref] when non-null, else continue with t*
+        let at = d.code.len();
+        let b = d.label(relative_depth, || Fix::Ins(at))?;
+        d.emit(ins(Op::BrOnNonNull, b.target, b.height, b.arity));
+        d.pop_n(1)?;
+      }
+      Operator::BrOnCast { relative_depth, to_ref_type, .. }
+      | Operator::BrOnCastFail { relative_depth, to_ref_type, .. } => {
+        let fail = matches!(op, Operator::BrOnCastFail { .. });
+        let ci = d.m.cast_brs.len();
+        let b = d.label(relative_depth, || Fix::Cast(ci))?;
+        d.m.cast_brs.push(CastBr {
+          br: b,
+          ht: conv_heap_type(to_ref_type.heap_type()),
+          nullable: to_ref_type.is_nullable(),
+        });
+        d.emit(ins(if fail { Op::BrOnCastFail } else { Op::BrOnCast }, ci as u32, 0, 0));
+      }
+      Operator::ReturnCall { .. }
+      | Operator::ReturnCallIndirect { .. }
+      | Operator::ReturnCallRef { .. }
+      | Operator::Throw { .. }
+      | Operator::ThrowRef
+      | Operator::Rethrow { .. } => {
+        d.unsupported(format!("{op:?}"));
+        d.ctls.last_mut().unwrap().unreachable = true;
+      }
+      Operator::TryTable { .. }
+      | Operator::Try { .. }
+      | Operator::Catch { .. }
+      | Operator::CatchAll
+      | Operator::Delegate { .. } => {
+        return Err(format!("unsupported: exception handling construct {op:?}"));
+      }
+      // ---- everything else: generic stack effect, then translate --------------------------------
+      other => {
+        let (pops, pushes) = other
+          .operator_arity(&d.actx)
+          .ok_or_else(|| format!("internal: no arity for {other:?}"))?;
+        d.pop_n(pops)?;
+        d.h += pushes;
+        translate_plain(&mut d, &other)?;
+      }
+    }
+  }
+  if !d.ctls.is_empty() {
+    return Err("internal: unterminated function body".into());
+  }
+  let code = std::mem::take(&mut d.code);
+  let f = &mut m.funcs[fidx];
+  f.code = code;
+  f.local_defaults = local_defaults;
+  let _ = nparams;
+  Ok(())
+}
+
+fn translate_plain(d: &mut Decoder, op: &Operator) -> Result<(), String> {
+  use Operator as O;
+  let simple = |o: Op| ins(o, 0, 0, 0);
+  let i = match op {
+    O::Call { function_index } => ins(Op::Call, *function_index, 0, 0),
+    O::CallIndirect { type_index, table_index } => ins(Op::CallIndirect, *type_index, *table_index, 0),
+    O::CallRef { type_index } => ins(Op::CallRef, *type_index, 0, 0),
+    O::Drop => simple(Op::Drop),
+    O::Select | O::TypedSelect { .. } => simple(Op::Select),
+    O::LocalGet { local_index } => ins(Op::LocalGet, *local_index, 0, 0),
+    O::LocalSet { local_index } => ins(Op::LocalSet, *local_index, 0, 0),
+    O::LocalTee { local_index } => ins(Op::LocalTee, *local_index, 0, 0),
+    O::GlobalGet { global_index } => ins(Op::GlobalGet, *global_index, 0, 0),
+    O::GlobalSet { global_index } => ins(Op::GlobalSet, *global_index, 0, 0),
+    O::I32Const { value } => ins(Op::I32Const, *value as u32, 0, 0),
+    O::I32Eqz => simple(Op::I32Eqz),
+    O::I32Eq => simple(Op::I32Eq),
+    O::I32Ne => simple(Op::I32Ne),
+    O::I32LtS => simple(Op::I32LtS),
+    O::I32LtU => simple(Op::I32LtU),
+    O::I32GtS => simple(Op::I32GtS),
+    O::I32GtU => simple(Op::I32GtU),
+    O::I32LeS => simple(Op::I32LeS),
+    O::I32LeU => simple(Op::I32LeU),
+    O::I32GeS => simple(Op::I32GeS),
+    O::I32GeU => simple(Op::I32GeU),
+    O::I32Clz => simple(Op::I32Clz),
+    O::I32Ctz => simple(Op::I32Ctz),
+    O::I32Popcnt => simple(Op::I32Popcnt),
+    O::I32Add => simple(Op::I32Add),
+    O::I32Sub => simple(Op::I32Sub),
+    O::I32Mul => simple(Op::I32Mul),
+    O::I32DivS => simple(Op::I32DivS),
+    O::I32DivU => simple(Op::I32DivU),
+    O::I32RemS => simple(Op::I32RemS),
+    O::I32RemU => simple(Op::I32RemU),
+    O::I32And => simple(Op::I32And),
+    O::I32Or => simple(Op::I32Or),
+    O::I32Xor => simple(Op::I32Xor),
+    O::I32Shl => simple(Op::I32Shl),
+    O::I32ShrS => simple(Op::I32ShrS),
+    O::I32ShrU => simple(Op::I32ShrU),
+    O::I32Rotl => simple(Op::I32Rotl),
+    O::I32Rotr => simple(Op::I32Rotr),
+    O::I32Extend8S => simple(Op::I32Extend8S),
+    O::I32Extend16S => simple(Op::I32Extend16S),
+    O::I32Load { memarg }
+    | O::I32Load8S { memarg }
+    | O::I32Load8U { memarg }
+    | O::I32Load16S { memarg }
+    | O::I32Load16U { memarg }
+    | O::I32Store { memarg }
+    | O::I32Store8 { memarg }
+    | O::I32Store16 { memarg } => {
+      if memarg.memory != 0 || memarg.offset > u32::MAX as u64 {
+        d.unsupported(format!("{op:?}"));
+        return Ok(());
+      }
+      let o = match op {
+        O::I32Load { .. } => Op::I32Load,
+        O::I32Load8S { .. } => Op::I32Load8S,
+        O::I32Load8U { .. } => Op::I32Load8U,
+        O::I32Load16S { .. } => Op::I32Load16S,
+        O::I32Load16U { .. } => Op::I32Load16U,
+        O::I32Store { .. } => Op::I32Store,
+        O::I32Store8 { .. } => Op::I32Store8,
+        _ => Op::I32Store16,
+      };
+      ins(o, memarg.offset as u32, 0, 0)
+    }
+    O::MemorySize { mem: 0 } => simple(Op::MemorySize),
+    O::MemoryGrow { mem: 0 } => simple(Op::MemoryGrow),
+    O::DataDrop { data_index } => ins(Op::DataDrop, *data_index, 0, 0),
+    O::RefNull { .. } => simple(Op::RefNull),
+    O::RefIsNull => simple(Op::RefIsNull),
+    O::RefFunc { function_index } => ins(Op::RefFunc, *function_index, 0, 0),
+    O::RefEq => simple(Op::RefEq),
+    O::RefAsNonNull => simple(Op::RefAsNonNull),
+    O::RefTestNonNull { hty } | O::RefTestNullable { hty } => {
+      let (c, x) = ht_encode(conv_heap_type(*hty));
+      ins(Op::RefTest, c, x, matches!(op, O::RefTestNullable { .. }) as u32)
+    }
+    O::RefCastNonNull { hty } | O::RefCastNullable { hty } => {
+      let (c, x) = ht_encode(conv_heap_type(*hty));
+      ins(Op::RefCast, c, x, matches!(op, O::RefCastNullable { .. }) as u32)
+    }
+    O::RefI31 => simple(Op::RefI31),
+    O::I31GetS => simple(Op::I31GetS),
+    O::I31GetU => simple(Op::I31GetU),
+    O::StructNew { struct_type_index } => {
+      let n = match d.m.types.get(*struct_type_index as usize).map(|t| &t.kind) {
+        Some(Kind::Struct { fields }) => fields.len() as u32,
+        _ => return Err("internal: struct.new on a non-struct type".into()),
+      };
+      ins(Op::StructNew, *struct_type_index, n, 0)
+    }
+    O::StructNewDefault { struct_type_index } => ins(Op::StructNewDefault, *struct_type_index, 0, 0),
+    O::StructGet { struct_type_index, field_index } => {
+      ins(Op::StructGet, *struct_type_index, *field_index, 0)
+    }
+    O::StructGetS { struct_type_index, field_index } => {
+      ins(Op::StructGetS, *struct_type_index, *field_index, d.stor_code(*struct_type_index, Some(*field_index)))
+    }
+    O::StructGetU { struct_type_index, field_index } => {
+      ins(Op::StructGetU, *struct_type_index, *field_index, d.stor_code(*struct_type_index, Some(*field_index)))
+    }
+    O::StructSet { struct_type_index, field_index } => {
+      ins(Op::StructSet, *struct_type_index, *field_index, d.stor_code(*struct_type_index, Some(*field_index)))
+    }
+    O::ArrayNew { array_type_index } => ins(Op::ArrayNew, *array_type_index, 0, 0),
+    O::ArrayNewDefault { array_type_index } => ins(Op::ArrayNewDefault, *array_type_index, 0, 0),
+    O::ArrayNewFixed { array_type_index, array_size } => {
+      ins(Op::ArrayNewFixed, *array_type_index, *array_size, 0)
+    }
+    O::ArrayNewData { array_type_index, array_data_index } => {
+      ins(Op::ArrayNewData, *array_type_index, *array_data_index, 0)
+    }
+    O::ArrayGet { array_type_index } => ins(Op::ArrayGet, *array_type_index, 0, 0),
+    O::ArrayGetS { array_type_index } => ins(Op::ArrayGetS, *array_type_index, 0, 0),
+    O::ArrayGetU { array_type_index } => ins(Op::ArrayGetU, *array_type_index, 0, 0),
+    O::ArraySet { array_type_index } => ins(Op::ArraySet, *array_type_index, 0, 0),
+    O::ArrayLen => simple(Op::ArrayLen),
+    O::ArrayFill { array_type_index } => ins(Op::ArrayFill, *array_type_index, 0, 0),
+    O::ArrayCopy { array_type_index_dst, array_type_index_src } => {
+      ins(Op::ArrayCopy, *array_type_index_dst, *array_type_index_src, 0)
+    }
+    O::TableGet { table } => ins(Op::TableGet, *table, 0, 0),
+    O::TableSet { table } => ins(Op::TableSet, *table, 0, 0),
+    O::TableSize { table } => ins(Op::TableSize, *table, 0, 0),
+    other => {
+      d.unsupported(format!("{other:?}"));
+      return Ok(());
+    }
+  };
+  d.emit(i);
+  Ok(())
+}
+
+/// locate $__Vec$pop / $__Vec$get / $__Vec$set
+fn find_vec_helpers(m: &Module) -> Option<[u32; 3]> {
+  let by_name = |n: &str| -> Option<u32> {
+    let mut hit = None;
+    for (i, f) in m.funcs.iter().enumerate() {
+      if f.name.as_deref() == Some(n) {
+        if hit.is_some() {
+          return None; // ambiguous
+        }
+        hit = Some(i as u32);
+      }
+    }
+    hit
+  };
+  if let (Some(p), Some(g), Some(s)) = (by_name("__Vec$pop"), by_name("__Vec$get"), by_name("__Vec$set")) {
+    return Some([p, g, s]);
+  }
+  if m.funcs.iter().any(|f| f.name.is_some()) {
+    // there is a name section but it does not name the helpers: do not guess
+    return None;
+  }
+  // no name section: libsam.wat is linked first, so the helpers sit at fixed offsets after the
+  // exported $__$strLen (strLen strGet Str$eq getBuiltinString fromInt toInt concat unwrapI31
+  // Vec$empty withCapacity of length capacity reserve push pop get set eq)
+  let anchor = match m.exports.get("__strLen") {
+    Some((ExternalKind::Func, i)) => *i,
+    _ => return None,
+  };
+  let cand = [anchor + 15, anchor + 16, anchor + 17];
+  let shape_ok = |f: u32, np: u32| -> bool {
+    match m.funcs.get(f as usize) {
+      Some(func) => {
+        func.nparams == np
+          && func.nresults == 1
+          && func.code.iter().filter(|i| i.op == Op::Unreachable).count() == 1
+      }
+      None => false,
+    }
+  };
+  if shape_ok(cand[0], 1) && shape_ok(cand[1], 2) && shape_ok(cand[2], 3) { Some(cand) } else { None }
+}
+
+// ---------------------------------------------------------------------------------------------
+// runtime
+// ---------------------------------------------------------------------------------------------
+
+enum Obj {
+  Struct { ty: u32, fields: Box<[Val]> },
+  Arr8 { ty: u32, data: Vec<u8> },
+  Arr16 { ty: u32, data: Vec<u16> },
+  Arr { ty: u32, data: Vec<Val> },
+}
+
+impl Obj {
+  #[inline(always)]
+  fn ty(&self) -> u32 {
+    match self {
+      Obj::Struct { ty, .. } | Obj::Arr8 { ty, .. } | Obj::Arr16 { ty, .. } | Obj::Arr { ty, .. } => *ty,
+    }
+  }
+  fn len(&self) -> usize {
+    match self {
+      Obj::Struct { fields, .. } => fields.len(),
+      Obj::Arr8 { data, .. } => data.len(),
+      Obj::Arr16 { data, .. } => data.len(),
+      Obj::Arr { data, .. } => data.len(),
+    }
+  }
+}
+
+#[derive(Clone, Copy)]
+struct Frame {
+  func: u32,
+  pc: u32,
+  base: u32,
+}
+
+/// why the run stopped (other than a normal return)
+enum Stop {
+  Trap(&'static str),
+  Panic(String),
+  StepLimit,
+  StackExhausted,
+  Harness(String),
+}
+
+struct State {
+  stack: Vec<Val>,
+  frames: Vec<Frame>,
+  heap: Vec<Obj>,
+  heap_cells: u64,
+  globals: Vec<Val>,
+  tables: Vec<Vec<Val>>,
+  memory: Vec<u8>,
+  memory_max_pages: u64,
+  has_memory: bool,
+  data_dropped: Vec<bool>,
+  lines: Vec<String>,
+  steps: u64,
+  max_depth_seen: usize,
+  seen: [bool; 256],
+  /// function executing when the run stopped
+  cur_func: u32,
+}
+
+fn internal(what: &str) -> Stop {
+  Stop::Harness(format!("internal: {what}"))
+}
+
+impl State {
+  #[inline(always)]
+  fn pop(&mut self) -> Result<Val, Stop> {
+    self.stack.pop().ok_or_else(|| internal("value stack underflow"))
+  }
+  #[inline(always)]
+  fn pop_i32(&mut self) -> Result<i32, Stop> {
+    match self.stack.pop() {
+      Some(Val::I32(v)) => Ok(v),
+      _ => Err(internal("expected i32 operand")),
+    }
+  }
+  #[inline(always)]
+  fn push(&mut self, v: Val) {
+    self.stack.push(v);
+  }
+
+  fn alloc(&mut self, o: Obj) -> Result<Val, Stop> {
+    let cells = match &o {
+      Obj::Struct { fields, .. } => fields.len() as u64 + 1,
+      Obj::Arr8 { data, .. } => data.len() as u64 / 8 + 1,
+      Obj::Arr16 { data, .. } => data.len() as u64 / 4 + 1,
+      Obj::Arr { data, .. } => data.len() as u64 + 1,
+    };
+    self.heap_cells += cells;
+    if self.heap_cells > HEAP_CELL_BUDGET || self.heap.len() >= u32::MAX as usize {
+      return Err(Stop::Harness("resource: heap cell budget exceeded".into()));
+    }
+    self.heap.push(o);
+    Ok(Val::Obj(self.heap.len() as u32 - 1))
+  }
+
+  /// does the (possibly null) reference `v` belong to `ht`?  (null handled by the caller)
+  #[inline]
+  fn ref_matches(&self, m: &Module, v: Val, ht: HT) -> Result<bool, Stop> {
+    Ok(match ht {
+      HT::Any | HT::Eq => matches!(v, Val::I31(_) | Val::Obj(_)),
+      HT::I31 => matches!(v, Val::I31(_)),
+      HT::Struct => matches!(v, Val::Obj(o) if matches!(self.heap[o as usize], Obj::Struct { .. })),
+      HT::Array => matches!(v, Val::Obj(o) if !matches!(self.heap[o as usize], Obj::Struct { .. })),
+      HT::None | HT::NoFunc | HT::NoExtern => false,
+      HT::Func => matches!(v, Val::Func(_)),
+      HT::Extern | HT::Other => {
+        return Err(Stop::Harness("unsupported: cast to extern/exn/cont/exact heap type".into()));
+      }
+      HT::Concrete(t) => match v {
+        Val::Obj(o) => m.is_sub(self.heap[o as usize].ty(), t),
+        Val::Func(f) => m.is_sub(m.funcs[f as usize].ty, t),
+        _ => false,
+      },
+    })
+  }
+
+  fn new_array(&mut self, m: &Module, ty: u32, len: u32, init: Option<Val>) -> Result<Val, Stop> {
+    if len >= MAX_ARRAY_LEN {
+      return Err(Stop::Trap("AllocationTooLarge"));
+    }
+    // charge the budget before materialising the vector
+    if self.heap_cells + len as u64 / 8 > HEAP_CELL_BUDGET {
+      return Err(Stop::Harness("resource: heap cell budget exceeded".into()));
+    }
+    let n = len as usize;
+    let o = match &m.types[ty as usize].kind {
+      Kind::Array { stor: Stor::I8, .. } => {
+        let b = match init {
+          Some(Val::I32(v)) => v as u8,
+          None => 0,
+          _ => return Err(internal("array.new init operand")),
+        };
+        Obj::Arr8 { ty, data: vec![b; n] }
+      }
+      Kind::Array { stor: Stor::I16, .. } => {
+        let b = match init {
+          Some(Val::I32(v)) => v as u16,
+          None => 0,
+          _ => return Err(internal("array.new init operand")),
+        };
+        Obj::Arr16 { ty, data: vec![b; n] }
+      }
+      Kind::Array { stor: Stor::Full, default, .. } => {
+        if self.heap_cells + len as u64 > HEAP_CELL_BUDGET {
+          return Err(Stop::Harness("resource: heap cell budget exceeded".into()));
+        }
+        Obj::Arr { ty, data: vec![init.unwrap_or(*default); n] }
+      }
+      _ => return Err(internal("array.new on a non-array type")),
+    };
+    self.alloc(o)
+  }
+
+  #[inline(always)]
+  fn array_get(&self, r: Val, idx: i32, mode: u8) -> Result<Val, Stop> {
+    let o = match r {
+      Val::Obj(o) => o,
+      Val::Null => return Err(Stop::Trap("NullReference")),
+      _ => return Err(internal("array.get on a non-array value")),
+    };
+    let i = idx as u32 as usize;
+    match &self.heap[o as usize] {
+      Obj::Arr8 { data, .. } => match data.get(i) {
+        Some(b) => Ok(Val::I32(if mode == 1 { *b as i8 as i32 } else { *b as i32 })),
+        None => Err(Stop::Trap("OutOfBoundsArray")),
+      },
+      Obj::Arr16 { data, .. } => match data.get(i) {
+        Some(b) => Ok(Val::I32(if mode == 1 { *b as i16 as i32 } else { *b as i32 })),
+        None => Err(Stop::Trap("OutOfBoundsArray")),
+      },
+      Obj::Arr { data, .. } => match data.get(i) {
+        Some(v) => Ok(*v),
+        None => Err(Stop::Trap("OutOfBoundsArray")),
+      },
+      Obj::Struct { .. } => Err(internal("array.get on a struct")),
+    }
+  }
+
+  #[inline(always)]
+  fn array_set(&mut self, r: Val, idx: i32, v: Val) -> Result<(), Stop> {
+    let o = match r {
+      Val::Obj(o) => o,
+      Val::Null => return Err(Stop::Trap("NullReference")),
+      _ => return Err(internal("array.set on a non-array value")),
+    };
+    let i = idx as u32 as usize;
+    match (&mut self.heap[o as usize], v) {
+      (Obj::Arr8 { data, .. }, Val::I32(x)) => match data.get_mut(i) {
+        Some(slot) => *slot = x as u8,
+        None => return Err(Stop::Trap("OutOfBoundsArray")),
+      },
+      (Obj::Arr16 { data, .. }, Val::I32(x)) => match data.get_mut(i) {
+        Some(slot) => *slot = x as u16,
+        None => return Err(Stop::Trap("OutOfBoundsArray")),
+      },
+      (Obj::Arr { data, .. }, v) => match data.get_mut(i) {
+        Some(slot) => *slot = v,
+        None => return Err(Stop::Trap("OutOfBoundsArray")),
+      },
+      _ => return Err(internal("array.set operand kinds")),
+    }
+    Ok(())
+  }
+
+  fn array_fill(&mut self, r: Val, off: i32, v: Val, n: i32) -> Result<(), Stop> {
+    let o = match r {
+      Val::Obj(o) => o,
+      Val::Null => return Err(Stop::Trap("NullReference")),
+      _ => return Err(internal("array.fill on a non-array value")),
+    };
+    let (off, n) = (off as u32 as u64, n as u32 as u64);
+    let obj = &mut self.heap[o as usize];
+    if off + n > obj.len() as u64 {
+      return Err(Stop::Trap("OutOfBoundsArray"));
+    }
+    let (a, b) = (off as usize, (off + n) as usize);
+    match (obj, v) {
+      (Obj::Arr8 { data, .. }, Val::I32(x)) => data[a..b].fill(x as u8),
+      (Obj::Arr16 { data, .. }, Val::I32(x)) => data[a..b].fill(x as u16),
+      (Obj::Arr { data, .. }, v) => data[a..b].fill(v),
+      _ => return Err(internal("array.fill operand kinds")),
+    }
+    Ok(())
+  }
+
+  fn array_copy(&mut self, dst: Val, doff: i32, src: Val, soff: i32, n: i32) -> Result<(), Stop> {
+    let (d, s) = match (dst, src) {
+      (Val::Null, _) | (_, Val::Null) => return Err(Stop::Trap("NullReference")),
+      (Val::Obj(d), Val::Obj(s)) => (d as usize, s as usize),
+      _ => return Err(internal("array.copy on non-array values")),
+    };
+    let (doff, soff, n) = (doff as u32 as u64, soff as u32 as u64, n as u32 as u64);
+    if doff + n > self.heap[d].len() as u64 || soff + n > self.heap[s].len() as u64 {
+      return Err(Stop::Trap("OutOfBoundsArray"));
+    }
+    let (doff, soff, n) = (doff as usize, soff as usize, n as usize);
+    if d == s {
+      match &mut self.heap[d] {
+        Obj::Arr8 { data, .. } => data.copy_within(soff..soff + n, doff),
+        Obj::Arr16 { data, .. } => data.copy_within(soff..soff + n, doff),
+        Obj::Arr { data, .. } => data.copy_within(soff..soff + n, doff),
+        Obj::Struct { .. } => return Err(internal("array.copy on a struct")),
+      }
+      return Ok(());
+    }
+    // distinct objects: split the heap to borrow both
+    let (lo, hi) = (d.min(s), d.max(s));
+    let (left, right) = self.heap.split_at_mut(hi);
+    let (dobj, sobj) = if d < s { (&mut left[lo], &right[0]) } else { (&mut right[0], &left[lo]) };
+    match (dobj, sobj) {
+      (Obj::Arr8 { data: dd, .. }, Obj::Arr8 { data: sd, .. }) => {
+        dd[doff..doff + n].copy_from_slice(&sd[soff..soff + n])
+      }
+      (Obj::Arr16 { data: dd, .. }, Obj::Arr16 { data: sd, .. }) => {
+        dd[doff..doff + n].copy_from_slice(&sd[soff..soff + n])
+      }
+      (Obj::Arr { data: dd, .. }, Obj::Arr { data: sd, .. }) => {
+        dd[doff..doff + n].copy_from_slice(&sd[soff..soff + n])
+      }
+      _ => return Err(internal("array.copy between different representations")),
+    }
+    Ok(())
+  }
+
+  /// decode a GC string the way loader.js does: `String.fromCharCode(...codes)` over the
+  /// `array.get_s` results, i.e. ToUint16 of the sign-extended byte
+  fn host_string(&self, v: Val) -> Result<String, Stop> {
+    match v {
+      Val::Obj(o) => match &self.heap[o as usize] {
+        Obj::Arr8 { data, .. } => {
+          let mut s = String::with_capacity(data.len());
+          for b in data {
+            if *b < 0x80 {
+              s.push(*b as char);
+            } else {
+              // (b as i8 as i32) as u16 == 0xFF00 | b : never a surrogate
+              s.push(char::from_u32(0xFF00 | *b as u32).unwrap());
+            }
+          }
+          Ok(s)
+        }
+        _ => Err(Stop::Harness("unsupported: host string argument is not an i8 array".into())),
+      },
+      // a null would make `instance.exports.__strLen(arr)` throw a TypeError in the host
+      Val::Null => Err(Stop::Trap("NullReference")),
+      _ => Err(Stop::Harness("unsupported: host string argument is not a reference".into())),
+    }
+  }
+
+  #[inline(always)]
+  fn mem_range(&self, addr: i32, offset: u32, n: usize) -> Result<usize, Stop> {
+    let ea = addr as u32 as u64 + offset as u64;
+    if !self.has_memory || ea + n as u64 > self.memory.len() as u64 {
+      return Err(Stop::Trap("OutOfBoundsMemory"));
+    }
+    Ok(ea as usize)
+  }
+}
+
+/// call function `entry` (which must take no parameters) and run until it returns
+fn exec(m: &Module, st: &mut State, entry: u32, limits: &Limits) -> Result<(), Stop> {
+  let funcs = &m.funcs;
+  let ef = funcs.get(entry as usize).ok_or_else(|| internal("entry function index out of range"))?;
+  if ef.import.is_some() {
+    return Err(Stop::Harness("unsupported: calling an imported function as entry point".into()));
+  }
+  if ef.nparams != 0 {
+    return Err(Stop::Harness("unsupported: entry function takes parameters".into()));
+  }
+  if !st.frames.is_empty() {
+    return Err(internal("exec re-entered"));
+  }
+  let mut f = entry;
+  st.cur_func = f;
+  let stack_floor = st.stack.len();
+  let mut base = stack_floor;
+  st.stack.extend_from_slice(&ef.local_defaults);
+  let mut opbase = st.stack.len();
+  let mut code: &[Ins] = &ef.code;
+  let mut pc = 0usize;
+  if st.max_depth_seen < 1 {
+    st.max_depth_seen = 1;
+  }
+  if limits.max_depth < 1 {
+    return Err(Stop::StackExhausted);
+  }
+
+  macro_rules! branch {
+    ($t:expr, $h:expr, $ar:expr) => {{
+      let dst = opbase + $h as usize;
+      let ar = $ar as usize;
+      let sp = st.stack.len();
+      if sp < dst + ar {
+        return Err(internal("branch below label height"));
+      }
+      let src = sp - ar;
+      if src != dst {
+        for k in 0..ar {
+          st.stack[dst + k] = st.stack[src + k];
+        }
+        st.stack.truncate(dst + ar);
+      }
+      pc = $t as usize;
+    }};
+  }
+  macro_rules! bin {
+    (|$a:ident, $b:ident| $e:expr) => {{
+      let $b = st.pop_i32()?;
+      let $a = st.pop_i32()?;
+      st.push(Val::I32($e));
+    }};
+  }
+  macro_rules! un {
+    (|$a:ident| $e:expr) => {{
+      let $a = st.pop_i32()?;
+      st.push(Val::I32($e));
+    }};
+  }
+  macro_rules! do_call {
+    ($callee:expr) => {{
+      let callee: u32 = $callee;
+      let cf = &funcs[callee as usize];
+      if cf.import.is_some() {
+        let np = cf.nparams as usize;
+        let sp = st.stack.len();
+        if np != 2 || sp < opbase + np {
+          return Err(Stop::Harness("unsupported: host import with unexpected signature".into()));
+        }
+        let s = st.host_string(st.stack[sp - 1])?;
+        st.stack.truncate(sp - np);
+        match cf.host {
+          Some(Host::Println) => {
+            if st.lines.len() >= limits.max_lines {
+              return Err(Stop::StepLimit);
+            }
+            st.lines.push(s);
+            // the JS function returns 0, converted to the declared i32 result
+            match cf.nresults {
+              0 => {}
+              1 => st.push(Val::I32(0)),
+              _ => return Err(Stop::Harness("unsupported: multi-result host import".into())),
+            }
+          }
+          Some(Host::Panic) => return Err(Stop::Panic(s)),
+          None => return Err(internal("unlinked import reached")),
+        }
+      } else {
+        // depth after the call = callers on the frame stack + the running callee
+        if st.frames.len() + 2 > limits.max_depth {
+          return Err(Stop::StackExhausted);
+        }
+        st.frames.push(Frame { func: f, pc: pc as u32, base: base as u32 });
+        if st.frames.len() + 1 > st.max_depth_seen {
+          st.max_depth_seen = st.frames.len() + 1;
+        }
+        f = callee;
+        st.cur_func = f;
+        let np = cf.nparams as usize;
+        if st.stack.len() < opbase + np {
+          return Err(internal("call with too few operands"));
+        }
+        base = st.stack.len() - np;
+        st.stack.extend_from_slice(&cf.local_defaults);
+        opbase = st.stack.len();
+        code = &cf.code;
+        pc = 0;
+      }
+    }};
+  }
+
+  loop {
+    if st.steps >= limits.max_steps {
+      return Err(Stop::StepLimit);
+    }
+    st.steps += 1;
+    let i = match code.get(pc) {
+      Some(i) => *i,
+      None => return Err(internal("pc ran off the end of a function")),
+    };
+    pc += 1;
+    st.seen[i.op as usize] = true;
+    match i.op {
+      Op::Unreachable => return Err(Stop::Trap("Unreachable")),
+      Op::Nop | Op::Block | Op::Loop | Op::End => {}
+      Op::If => {
+        if st.pop_i32()? == 0 {
+          pc = i.a as usize;
+        }
+      }
+      Op::Else => pc = i.a as usize,
+      Op::Br => branch!(i.a, i.b, i.c),
+      Op::BrIf => {
+        if st.pop_i32()? != 0 {
+          branch!(i.a, i.b, i.c);
+        }
+      }
+      Op::BrTable => {
+        let idx = st.pop_i32()? as u32 as usize;
+        let t = &m.br_tables[i.a as usize];
+        let b = if idx < t.len() - 1 { t[idx] } else { t[t.len() - 1] };
+        branch!(b.target, b.height, b.arity);
+      }
+      Op::Return => {
+        let nr = funcs[f as usize].nresults as usize;
+        let sp = st.stack.len();
+        if sp < opbase + nr {
+          return Err(internal("return with too few operands"));
+        }
+        let src = sp - nr;
+        if src != base {
+          for k in 0..nr {
+            st.stack[base + k] = st.stack[src + k];
+          }
+          st.stack.truncate(base + nr);
+        }
+        match st.frames.pop() {
+          None => {
+            // results of the entry function are discarded, like an ignored JS return value
+            st.stack.truncate(stack_floor);
+            return Ok(());
+          }
+          Some(fr) => {
+            f = fr.func;
+            st.cur_func = f;
+            let cf = &funcs[f as usize];
+            base = fr.base as usize;
+            opbase = base + cf.nparams as usize + cf.local_defaults.len();
+            code = &cf.code;
+            pc = fr.pc as usize;
+          }
+        }
+      }
+      Op::Call => do_call!(i.a),
+      Op::CallIndirect => {
+        let idx = st.pop_i32()? as u32 as usize;
+        let table = m_table(st, i.b)?;
+        let callee = match table.get(idx) {
+          None => return Err(Stop::Trap("OutOfBoundsTable")),
+          Some(Val::Null) => return Err(Stop::Trap("NullTableEntry")),
+          Some(Val::Func(c)) => *c,
+          Some(_) => return Err(internal("non-function value in a table used by call_indirect")),
+        };
+        if !m.is_sub(funcs[callee as usize].ty, i.a) {
+          return Err(Stop::Trap("IndirectCallTypeMismatch"));
+        }
+        do_call!(callee);
+      }
+      Op::CallRef => {
+        let callee = match st.pop()? {
+          Val::Null => return Err(Stop::Trap("NullReference")),
+          Val::Func(c) => c,
+          _ => return Err(internal("call_ref on a non-function value")),
+        };
+        if !m.is_sub(funcs[callee as usize].ty, i.a) {
+          return Err(internal("call_ref callee type is not a subtype of the annotation"));
+        }
+        do_call!(callee);
+      }
+      Op::Drop => {
+        st.pop()?;
+      }
+      Op::Select => {
+        let c = st.pop_i32()?;
+        let b = st.pop()?;
+        let a = st.pop()?;
+        st.push(if c != 0 { a } else { b });
+      }
+      Op::LocalGet => {
+        let v = st.stack[base + i.a as usize];
+        st.push(v);
+      }
+      Op::LocalSet => {
+        let v = st.pop()?;
+        st.stack[base + i.a as usize] = v;
+      }
+      Op::LocalTee => {
+        let v = *st.stack.last().ok_or_else(|| internal("local.tee on empty stack"))?;
+        st.stack[base + i.a as usize] = v;
+      }
+      Op::GlobalGet => {
+        let v = *st.globals.get(i.a as usize).ok_or_else(|| internal("global index"))?;
+        st.push(v);
+      }
+      Op::GlobalSet => {
+        let v = st.pop()?;
+        *st.globals.get_mut(i.a as usize).ok_or_else(|| internal("global index"))? = v;
+      }
+      Op::I32Const => st.push(Val::I32(i.a as i32)),
+      Op::I32Eqz => un!(|a| (a == 0) as i32),
+      Op::I32Eq => bin!(|a, b| (a == b) as i32),
+      Op::I32Ne => bin!(|a, b| (a != b) as i32),
+      Op::I32LtS => bin!(|a, b| (a < b) as i32),
+      Op::I32LtU => bin!(|a, b| ((a as u32) < (b as u32)) as i32),
+      Op::I32GtS => bin!(|a, b| (a > b) as i32),
+      Op::I32GtU => bin!(|a, b| ((a as u32) > (b as u32)) as i32),
+      Op::I32LeS => bin!(|a, b| (a <= b) as i32),
+      Op::I32LeU => bin!(|a, b| ((a as u32) <= (b as u32)) as i32),
+      Op::I32GeS => bin!(|a, b| (a >= b) as i32),
+      Op::I32GeU => bin!(|a, b| ((a as u32) >= (b as u32)) as i32),
+      Op::I32Clz => un!(|a| a.leading_zeros() as i32),
+      Op::I32Ctz => un!(|a| a.trailing_zeros() as i32),
+      Op::I32Popcnt => un!(|a| a.count_ones() as i32),
+      Op::I32Add => bin!(|a, b| a.wrapping_add(b)),
+      Op::I32Sub => bin!(|a, b| a.wrapping_sub(b)),
+      Op::I32Mul => bin!(|a, b| a.wrapping_mul(b)),
+      Op::I32DivS => {
+        let b = st.pop_i32()?;
+        let a = st.pop_i32()?;
+        if b == 0 {
+          return Err(Stop::Trap("IntegerDivideByZero"));
+        }
+        if a == i32::MIN && b == -1 {
+          return Err(Stop::Trap("IntegerOverflow"));
+        }
+        st.push(Val::I32(a.wrapping_div(b)));
+      }
+      Op::I32DivU => {
+        let b = st.pop_i32()?;
+        let a = st.pop_i32()?;
+        if b == 0 {
+          return Err(Stop::Trap("IntegerDivideByZero"));
+        }
+        st.push(Val::I32(((a as u32) / (b as u32)) as i32));
+      }
+      Op::I32RemS => {
+        let b = st.pop_i32()?;
+        let a = st.pop_i32()?;
+        if b == 0 {
+          return Err(Stop::Trap("IntegerDivideByZero"));
+        }
+        // INT_MIN rem -1 is 0, not a trap
+        st.push(Val::I32(a.wrapping_rem(b)));
+      }
+      Op::I32RemU => {
+        let b = st.pop_i32()?;
+        let a = st.pop_i32()?;
+        if b == 0 {
+          return Err(Stop::Trap("IntegerDivideByZero"));
+        }
+        st.push(Val::I32(((a as u32) % (b as u32)) as i32));
+      }
+      Op::I32And => bin!(|a, b| a & b),
+      Op::I32Or => bin!(|a, b| a | b),
+      Op::I32Xor => bin!(|a, b| a ^ b),
+      Op::I32Shl => bin!(|a, b| a.wrapping_shl(b as u32)),
+      Op::I32ShrS => bin!(|a, b| a.wrapping_shr(b as u32)),
+      Op::I32ShrU => bin!(|a, b| ((a as u32).wrapping_shr(b as u32)) as i32),
+      Op::I32Rotl => bin!(|a, b| a.rotate_left(b as u32 & 31)),
+      Op::I32Rotr => bin!(|a, b| a.rotate_right(b as u32 & 31)),
+      Op::I32Extend8S => un!(|a| a as i8 as i32),
+      Op::I32Extend16S => un!(|a| a as i16 as i32),
+      Op::I32Load => {
+        let addr = st.pop_i32()?;
+        let ea = st.mem_range(addr, i.a, 4)?;
+        let v = i32::from_le_bytes(st.memory[ea..ea + 4].try_into().unwrap());
+        st.push(Val::I32(v));
+      }
+      Op::I32Load8S | Op::I32Load8U => {
+        let addr = st.pop_i32()?;
+        let ea = st.mem_range(addr, i.a, 1)?;
+        let b = st.memory[ea];
+        st.push(Val::I32(if i.op == Op::I32Load8S { b as i8 as i32 } else { b as i32 }));
+      }
+      Op::I32Load16S | Op::I32Load16U => {
+        let addr = st.pop_i32()?;
+        let ea = st.mem_range(addr, i.a, 2)?;
+        let b = u16::from_le_bytes(st.memory[ea..ea + 2].try_into().unwrap());
+        st.push(Val::I32(if i.op == Op::I32Load16S { b as i16 as i32 } else { b as i32 }));
+      }
+      Op::I32Store | Op::I32Store8 | Op::I32Store16 => {
+        let v = st.pop_i32()?;
+        let addr = st.pop_i32()?;
+        let n = match i.op {
+          Op::I32Store => 4,
+          Op::I32Store16 => 2,
+          _ => 1,
+        };
+        let ea = st.mem_range(addr, i.a, n)?;
+        st.memory[ea..ea + n].copy_from_slice(&v.to_le_bytes()[..n]);
+      }
+      Op::MemorySize => {
+        let pages = (st.memory.len() / 65536) as i32;
+        st.push(Val::I32(pages));
+      }
+      Op::MemoryGrow => {
+        let delta = st.pop_i32()? as u32 as u64;
+        let cur = (st.memory.len() / 65536) as u64;
+        // the interpreter refuses to grow beyond 4096 pages (256 MiB): reported as failure (-1)
+        if !st.has_memory || cur + delta > st.memory_max_pages.min(4096) {
+          st.push(Val::I32(-1));
+        } else {
+          st.memory.resize(((cur + delta) * 65536) as usize, 0);
+          st.push(Val::I32(cur as i32));
+        }
+      }
+      Op::DataDrop => {
+        *st.data_dropped.get_mut(i.a as usize).ok_or_else(|| internal("data index"))? = true;
+      }
+      Op::RefNull => st.push(Val::Null),
+      Op::RefIsNull => {
+        let v = st.pop()?;
+        st.push(Val::I32(matches!(v, Val::Null) as i32));
+      }
+      Op::RefFunc => st.push(Val::Func(i.a)),
+      Op::RefEq => {
+        let b = st.pop()?;
+        let a = st.pop()?;
+        let eq = match (a, b) {
+          (Val::Null, Val::Null) => true,
+          (Val::I31(x), Val::I31(y)) => x == y,
+          (Val::Obj(x), Val::Obj(y)) => x == y,
+          (Val::Null | Val::I31(_) | Val::Obj(_), Val::Null | Val::I31(_) | Val::Obj(_)) => false,
+          _ => return Err(internal("ref.eq on non-eq values")),
+        };
+        st.push(Val::I32(eq as i32));
+      }
+      Op::RefAsNonNull => match st.stack.last() {
+        Some(Val::Null) => return Err(Stop::Trap("NullReference")),
+        Some(Val::I31(_) | Val::Obj(_) | Val::Func(_)) => {}
+        _ => return Err(internal("ref.as_non_null on a non-reference")),
+      },
+      Op::BrOnNull => {
+        let v = st.pop()?;
+        if matches!(v, Val::Null) {
+          branch!(i.a, i.b, i.c);
+        } else {
+          st.push(v);
+        }
+      }
+      Op::BrOnNonNull => {
+        let v = st.pop()?;
+        if !matches!(v, Val::Null) {
+          st.push(v);
+          branch!(i.a, i.b, i.c);
+        }
+      }
+      Op::BrOnCast | Op::BrOnCastFail => {
+        let cb = m.cast_brs[i.a as usize];
+        let v = *st.stack.last().ok_or_else(|| internal("br_on_cast on empty stack"))?;
+        let ok = if matches!(v, Val::Null) { cb.nullable } else { st.ref_matches(m, v, cb.ht)? };
+        if ok == (i.op == Op::BrOnCast) {
+          branch!(cb.br.target, cb.br.height, cb.br.arity);
+        }
+      }
+      Op::RefTest => {
+        let v = st.pop()?;
+        let ok = if matches!(v, Val::Null) { i.c != 0 } else { st.ref_matches(m, v, ht_decode(i.a, i.b))? };
+        st.push(Val::I32(ok as i32));
+      }
+      Op::RefCast => {
+        let v = *st.stack.last().ok_or_else(|| internal("ref.cast on empty stack"))?;
+        let ok = if matches!(v, Val::Null) { i.c != 0 } else { st.ref_matches(m, v, ht_decode(i.a, i.b))? };
+        if !ok {
+          return Err(Stop::Trap("CastFailure"));
+        }
+      }
+      Op::RefI31 => {
+        let v = st.pop_i32()?;
+        // keep the low 31 bits; stored sign-extended
+        st.push(Val::I31((v << 1) >> 1));
+      }
+      Op::I31GetS | Op::I31GetU => match st.pop()? {
+        Val::I31(v) => st.push(Val::I32(if i.op == Op::I31GetS { v } else { v & 0x7fff_ffff })),
+        Val::Null => return Err(Stop::Trap("NullReference")),
+        _ => return Err(internal("i31.get on a non-i31 value")),
+      },
+      Op::StructNew => {
+        let n = i.b as usize;
+        let sp = st.stack.len();
+        if sp < opbase + n {
+          return Err(internal("struct.new with too few operands"));
+        }
+        let mut fields: Box<[Val]> = st.stack[sp - n..].into();
+        st.stack.truncate(sp - n);
+        if let Kind::Struct { fields: fts } = &m.types[i.a as usize].kind {
+          for (k, (stor, _)) in fts.iter().enumerate() {
+            match (stor, fields[k]) {
+              (Stor::Full, _) => {}
+              (Stor::I8, Val::I32(x)) => fields[k] = Val::I32(x as u8 as i32),
+              (Stor::I16, Val::I32(x)) => fields[k] = Val::I32(x as u16 as i32),
+              _ => return Err(internal("packed struct field operand")),
+            }
+          }
+        }
+        let v = st.alloc(Obj::Struct { ty: i.a, fields })?;
+        st.push(v);
+      }
+      Op::StructNewDefault => {
+        let fields: Box<[Val]> = match &m.types[i.a as usize].kind {
+          Kind::Struct { fields } => fields.iter().map(|f| f.1).collect(),
+          _ => return Err(internal("struct.new_default on a non-struct type")),
+        };
+        let v = st.alloc(Obj::Struct { ty: i.a, fields })?;
+        st.push(v);
+      }
+      Op::StructGet | Op::StructGetS | Op::StructGetU => {
+        let v = match st.pop()? {
+          Val::Obj(o) => match &st.heap[o as usize] {
+            Obj::Struct { fields, .. } => {
+              *fields.get(i.b as usize).ok_or_else(|| internal("struct field index"))?
+            }
+            _ => return Err(internal("struct.get on an array")),
+          },
+          Val::Null => return Err(Stop::Trap("NullReference")),
+          _ => return Err(internal("struct.get on a non-struct value")),
+        };
+        let v = match (i.op, i.c, v) {
+          (Op::StructGetS, 1, Val::I32(x)) => Val::I32(x as u8 as i8 as i32),
+          (Op::StructGetS, 2, Val::I32(x)) => Val::I32(x as u16 as i16 as i32),
+          _ => v,
+        };
+        st.push(v);
+      }
+      Op::StructSet => {
+        let v = st.pop()?;
+        let v = match (i.c, v) {
+          (1, Val::I32(x)) => Val::I32(x as u8 as i32),
+          (2, Val::I32(x)) => Val::I32(x as u16 as i32),
+          _ => v,
+        };
+        match st.pop()? {
+          Val::Obj(o) => match &mut st.heap[o as usize] {
+            Obj::Struct { fields, .. } => {
+              *fields.get_mut(i.b as usize).ok_or_else(|| internal("struct field index"))? = v
+            }
+            _ => return Err(internal("struct.set on an array")),
+          },
+          Val::Null => return Err(Stop::Trap("NullReference")),
+          _ => return Err(internal("struct.set on a non-struct value")),
+        }
+      }
+      Op::ArrayNew => {
+        let len = st.pop_i32()? as u32;
+        let init = st.pop()?;
+        let v = st.new_array(m, i.a, len, Some(init))?;
+        st.push(v);
+      }
+      Op::ArrayNewDefault => {
+        let len = st.pop_i32()? as u32;
+        let v = st.new_array(m, i.a, len, None)?;
+        st.push(v);
+      }
+      Op::ArrayNewFixed => {
+        let n = i.b as usize;
+        let sp = st.stack.len();
+        if sp < opbase + n {
+          return Err(internal("array.new_fixed with too few operands"));
+        }
+        let items: Vec<Val> = st.stack[sp - n..].to_vec();
+        st.stack.truncate(sp - n);
+        let r = st.new_array(m, i.a, n as u32, None)?;
+        for (k, v) in items.into_iter().enumerate() {
+          st.array_set(r, k as i32, v)?;
+        }
+        st.push(r);
+      }
+      Op::ArrayNewData => {
+        let size = st.pop_i32()? as u32;
+        let offset = st.pop_i32()? as u32;
+        let (stor, eb) = match &m.types[i.a as usize].kind {
+          Kind::Array { stor, numeric_bytes, .. } => (*stor, *numeric_bytes),
+          _ => return Err(internal("array.new_data on a non-array type")),
+        };
+        let seg = m.datas.get(i.b as usize).ok_or_else(|| internal("data index"))?;
+        let seg_bytes: &[u8] = if st.data_dropped[i.b as usize] { &[] } else { &seg.bytes };
+        let end = offset as u64 + size as u64 * eb as u64;
+        if end > seg_bytes.len() as u64 {
+          return Err(Stop::Trap("OutOfBoundsData"));
+        }
+        if size >= MAX_ARRAY_LEN {
+          return Err(Stop::Trap("AllocationTooLarge"));
+        }
+        let src = &seg_bytes[offset as usize..end as usize];
+        let o = match (stor, eb) {
+          (Stor::I8, _) => Obj::Arr8 { ty: i.a, data: src.to_vec() },
+          (Stor::I16, _) => Obj::Arr16 {
+            ty: i.a,
+            data: src.chunks_exact(2).map(|c| u16::from_le_bytes([c[0], c[1]])).collect(),
+          },
+          (Stor::Full, 4) => {
+            // i32 or f32 elements: only i32 is supported
+            Obj::Arr {
+              ty: i.a,
+              data: src
+                .chunks_exact(4)
+                .map(|c| Val::I32(i32::from_le_bytes([c[0], c[1], c[2], c[3]])))
+                .collect(),
+            }
+          }
+          _ => return Err(Stop::Harness("unsupported: array.new_data element type".into())),
+        };
+        let v = st.alloc(o)?;
+        st.push(v);
+      }
+      Op::ArrayGet | Op::ArrayGetS | Op::ArrayGetU => {
+        let idx = st.pop_i32()?;
+        let r = st.pop()?;
+        let v = st.array_get(r, idx, (i.op == Op::ArrayGetS) as u8)?;
+        st.push(v);
+      }
+      Op::ArraySet => {
+        let v = st.pop()?;
+        let idx = st.pop_i32()?;
+        let r = st.pop()?;
+        st.array_set(r, idx, v)?;
+      }
+      Op::ArrayLen => match st.pop()? {
+        Val::Obj(o) => {
+          let n = match &st.heap[o as usize] {
+            Obj::Struct { .. } => return Err(internal("array.len on a struct")),
+            other => other.len(),
+          };
+          st.push(Val::I32(n as i32));
+        }
+        Val::Null => return Err(Stop::Trap("NullReference")),
+        _ => return Err(internal("array.len on a non-array value")),
+      },
+      Op::ArrayFill => {
+        let n = st.pop_i32()?;
+        let v = st.pop()?;
+        let off = st.pop_i32()?;
+        let r = st.pop()?;
+        st.array_fill(r, off, v, n)?;
+      }
+      Op::ArrayCopy => {
+        let n = st.pop_i32()?;
+        let soff = st.pop_i32()?;
+        let src = st.pop()?;
+        let doff = st.pop_i32()?;
+        let dst = st.pop()?;
+        st.array_copy(dst, doff, src, soff, n)?;
+      }
+      Op::TableGet => {
+        let idx = st.pop_i32()? as u32 as usize;
+        let v = match m_table(st, i.a)?.get(idx) {
+          Some(v) => *v,
+          None => return Err(Stop::Trap("OutOfBoundsTable")),
+        };
+        st.push(v);
+      }
+      Op::TableSet => {
+        let v = st.pop()?;
+        let idx = st.pop_i32()? as u32 as usize;
+        match st.tables.get_mut(i.a as usize).ok_or_else(|| internal("table index"))?.get_mut(idx) {
+          Some(slot) => *slot = v,
+          None => return Err(Stop::Trap("OutOfBoundsTable")),
+        }
+      }
+      Op::TableSize => {
+        let n = m_table(st, i.a)?.len() as i32;
+        st.push(Val::I32(n));
+      }
+      Op::Unsupported => {
+        return Err(Stop::Harness(format!("unsupported: {}", m.unsupported[i.a as usize])));
+      }
+    }
+  }
+}
+
+#[inline(always)]
+fn m_table(st: &State, t: u32) -> Result<&Vec<Val>, Stop> {
+  st.tables.get(t as usize).ok_or_else(|| internal("table index"))
+}
